@@ -45,8 +45,8 @@ for i in range(1, 21):
                             'exit': s['exit'], 'verdict': 'caught' if s['exit'] == 1 else ('missed' if s['exit'] == 0 else 'harness failure'),
                             'first_keys': s['keys'][:8], 'run': s['summary']}
     if sid == 'C07' and m.get('quick_check', {}).get('verdict') == 'missed':
-        m['quick_check']['note'] = ('masked, not unobserved: the run reports violations of class C07.incremental_vs_fresh.add_params.*:prior-tree-has-artificials, '
-                                    'but the unchanged tree already fails in exactly this class (open known finding: PIP incremental re-solve), so the key is listed and the check exits 0; '
+        m['quick_check']['note'] = ('masked: what the change breaks (re-solving after parameters were added to a tree that has artificial parameters) is the triage class C07.incremental_vs_fresh.add_params.*:prior-tree-has-artificials, '
+                                    'in which the unchanged tree already fails (open known finding: PIP incremental re-solve), so nothing new is reported and the check exits 0; '
                                     'the change becomes visible once that defect is repaired, because a fixed entry suppresses nothing')
     json.dump(m, open(os.path.join(d, 'meta.json'), 'w'), indent=1)
     print(sid, m['quick_check'].get('verdict'), m['confirmed_here'].get('demonstration', {}).get('exit_with_change'), m['confirmed_here'].get('repository_test_suite', {}).get('totals'))
